@@ -9,3 +9,4 @@ import Gleece.Properties.C20
 #print axioms Gleece.Order.config_rejected_before_analysis
 #print axioms Gleece.Order.every_command_loads_config_first
 #print axioms Gleece.Order.routes_written_with_configured_mode
+#print axioms Gleece.Order.spec_failure_writes_nothing
